@@ -100,6 +100,22 @@ package tuple
 //@   ensures @asciiComplete isASCII(s) && userIDShape(s) ==> ok
 //@   pure
 
+
+// IsValidUserset: the loop-based predicate is used as an opaque deterministic predicate by other contracts; its
+// grammar post (type ':' id '#' relation, no spaces / control characters, no '*' after the type) is C29 work in progress.
+//@ func IsValidUserset(s) (ok)
+//@   loop 0 invariant @bytes forall j :: 0 <= j && j < $pos ==> s[j] != ' ' && s[j] >= 32 && s[j] != 127
+//@   ensures @sound ok ==> (forall j :: 0 <= j && j < len(s) ==> s[j] != ' ' && s[j] >= 32 && s[j] != 127)
+//@   pure
+
+//@ func IsObjectRelation(userset) (ok)
+//@   ensures ok == IsValidUserset(userset)
+//@   pure
+
+//@ func IsValidUser(user) (ok)
+//@   ensures ok <==> (user == "*" || IsValidUserID(user) || IsValidObject(user) || IsValidUserset(user))
+//@   pure
+
 //@ lemma split_build(t string, id string)
 //@   requires !containsByte(t, ':')
 //@   let o = BuildObject(t, id)
